@@ -22,8 +22,24 @@ func GenC05(seed uint64) *Plan {
 	p := g.basePlan("C05", seed)
 	sp := &p.Sources[0]
 	sp.InitLen = g.between(20, 45)
+	g.depGraph(p, uint64(g.between(4, 12)), 0)
+	g.transientFaults(p)
+	p.Faults.Stall = false
+	p.Faults.JumpPerMille = 0
+	p.Faults.CrashPerMille = g.pickInt([]int{0, 0, 5})
+	return p
+}
+
+// depGraph adds one or two referenced integrations (started at block 1; blocks
+// 1..3 carry the whole address pool, so a referenced table is complete for
+// every block the dependent may process) and a dependent integration with the
+// given range whose filters look them up.
+func (g *G) depGraph(p *Plan, depStart, depStop uint64) {
+	sp := &p.Sources[0]
 	nref := g.between(1, 2)
 	seedUpTo := uint64(3)
+	sharedRefTable := nref == 2 && g.chance(40)
+	hashRefs := g.chance(50)
 	// referenced integrations: Created(address pool, uint256 x), pool selected
 	for i := 0; i < nref; i++ {
 		ev := &model.Event{Name: fmt.Sprintf("Created%d", i), Type: "event", Inputs: []model.Input{
@@ -33,8 +49,12 @@ func GenC05(seed uint64) *Plan {
 		d := &model.Decl{Name: fmt.Sprintf("ref%d", i), Enabled: true, Event: ev,
 			Sources: []model.SrcRef{{Name: sp.Name, Start: 1}}}
 		d.Table.Name = "t_" + d.Name
+		if sharedRefTable {
+			// both referenced integrations write the same table and column
+			d.Table.Name = "t_refs"
+		}
 		d.Table.Columns = []model.Col{{Name: "c_pool", Type: "bytea"}, {Name: "c_x", Type: "numeric"}}
-		if g.chance(50) {
+		if hashRefs {
 			g.hashedDecl(d)
 		}
 		p.Decls = append(p.Decls, d)
@@ -47,7 +67,7 @@ func GenC05(seed uint64) *Plan {
 		{Name: "amt", Type: "uint256", Column: "c_amt"},
 	}}
 	dep := &model.Decl{Name: "dep", Enabled: true, Event: dev,
-		Sources: []model.SrcRef{{Name: sp.Name, Start: uint64(g.between(int(seedUpTo)+1, 12))}}}
+		Sources: []model.SrcRef{{Name: sp.Name, Start: depStart, Stop: depStop}}}
 	dep.Table.Name = "t_dep"
 	dep.Table.Columns = []model.Col{{Name: "c_who", Type: "bytea"}, {Name: "c_amt", Type: "numeric"}}
 	neg := func() string {
@@ -80,11 +100,6 @@ func GenC05(seed uint64) *Plan {
 	if g.chance(25) {
 		p.Idle = append(p.Idle, sp.Name+"/"+fmt.Sprintf("ref%d", g.R.IntN(nref)))
 	}
-	g.transientFaults(p)
-	p.Faults.Stall = false
-	p.Faults.JumpPerMille = 0
-	p.Faults.CrashPerMille = g.pickInt([]int{0, 0, 5})
-	return p
 }
 
 // At every commit of a dependent to position n, every referenced pair on the
